@@ -11,8 +11,17 @@ or none, an altered sample in any shank / window or none) and -- for the invaria
 consistent state in which the original is recoverable (every intermediate state is covered: each prefix is a history).
 `actingObj cfg call st = some ob` names the object whose `process` the call runs (the new one, or the kept one).
 `StOk st`: the live object, if any, is consistent with the disk (an invariant of `run`, true of every start state).
+
+Second half of the file: every run as a LIST OF ATOMIC EFFECTS (`Model/ConverterSteps.lean`: `effectsObj`, `applyEffs`), the
+expansion of the step order that the translator tie (`Tie/C04.lean`) proves equal to the source text.  `uninterrupted_run_is_effect_list`
+and `interrupted_run_is_prefix` show that the state machine above IS that sequential semantics (whole list; a prefix for every
+named interruption); `prefix_recoverable`, `original_recoverable_any_prefix`, `original_removed_only_after_check`,
+`rerun_after_any_prefix_completes` then quantify over ALL prefixes (an interruption between any two effects), `status_table` is
+the total decision table of the return status.  Hypothesis `cfg.ov < cfg.w` there: the window generator terminates (the code
+fixes the overlap at 576 and asserts the window is a multiple of 12; a window ≤ 576 never returns).
 -/
 import IblVerif.Lemmas.Converter
+import IblVerif.Lemmas.ConverterSteps
 
 namespace IblVerif.C04
 open IblVerif.Converter
@@ -28,14 +37,15 @@ theorem original_recoverable (cfg : Cfg) (hn : 0 < cfg.n) (st0 : St) (hs : StOk 
 
 /-- **The original is removed only after the split output has been verified bit-identical.**  If one call (new or same
 object) makes the original's data file unreadable/absent, then it was an NP2.4 run on the original by an object with
-`post_check` and `delete_original`, the split of THIS run was faithful for every shank (so this run's `check_NP24`
+`post_check` and `delete_original`, EVERY shank of the probe was converted (no partial `nshank` selection: a verification
+that passes on a subset of the shanks does not establish that the original can be rebuilt), the split of THIS run was faithful for every shank (so this run's `check_NP24`
 compared equal in every window), the run returned 1, and every shank folder holds a complete ap and lf stream (compressed
 or not, as requested) with metadata.  A `check_completed` left over from an earlier call of the same object never suffices. -/
 theorem delete_requires_check (cfg : Cfg) (call : Call) (st : St) (hs : StOk st)
     (h0 : OrigHolds st.disk) (h1 : ¬ OrigHolds (run cfg call st).1.disk) :
     ∃ ob, actingObj cfg call st = some ob ∧ cfg.kind = .np24 ∧ ob.onShank = false ∧
       ob.opts.postCheck = true ∧ ob.opts.deleteOriginal = true ∧
-      (∀ i, i < cfg.n → altered cfg call i = false) ∧
+      (cfg.partialSel = false ∧ ∀ i, i < cfg.n → altered cfg call i = false) ∧
       (run cfg call st).2 = .ret 1 ∧ Complete cfg ob.opts.compress (run cfg call st).1.disk := by
   cases ha : actingObj cfg call st with
   | none => rw [(run_noacting cfg call st ha).1] at h1; exact absurd h0 h1
@@ -250,6 +260,232 @@ theorem np21_trailing_compress_counterexample (cfg : Cfg) (hk : cfg.kind = .np21
     simp [processObj, apFileExists, St.start, fresh, hk, process21, hw, hi, hc, origCompressFails, htr, lfExists, FileSet.empty]
   exact ⟨h1, interrupted_run_keeps_original cfg call _ rfl _ h1⟩
 
+/-! ### Runs as effect sequences: interruption between ANY two effects (`Model/ConverterSteps.lean`)
+
+`effectsObj cfg ob call s` is the list of atomic effects `process` of the object `ob` performs on the disk `s` when the
+environment raises nowhere -- the expansion of the step order `steps24` / `steps21` that the translator tie
+(`Tie/C04.lean`) proves equal to the order of the calls in the source text.  `applyEffs cfg call pre (s, ob)` is the state
+after the effects `pre`, one after the other; an interruption between any two effects is a prefix `pre <+: effectsObj …`. -/
+
+/-- **The history model IS this sequential semantics (uninterrupted runs), and the status is the total decision table
+`statusObj`.**  `process` left alone by the environment -- any configuration, object, options, `overwrite`, unfaithful split
+-- leaves exactly the state after ALL effects of `effectsObj`, applied in order, and returns `statusObj`: 0 when the object's
+file is gone, 0 on an already split shank, -1 when the probe is not an NP2, 0 when `_prepare_files_*` found earlier output and
+`overwrite` is false, else 1 -- or the error the run's own stopping effect raises (failed verification; mtscomp on an NP2.1
+original with a trailing partial frame). -/
+theorem uninterrupted_run_is_effect_list (cfg : Cfg) (hov : cfg.ov < cfg.w) (ob : Obj) (call : Call) (s : Disk)
+    (hi : call.interrupt = none) :
+    applyEffs cfg call (effectsObj cfg ob call s) (s, ob) = ((processObj cfg ob call s).1, (processObj cfg ob call s).2.1) ∧
+    (processObj cfg ob call s).2.2 = statusObj cfg ob call s := by
+  unfold effectsObj statusObj processObj
+  cases he : apFileExists ob s
+  · simp [dispatch, applyEffs_nil]
+  cases ho : ob.onShank
+  · cases hk : cfg.kind
+    · simpa [dispatch] using process24_uninterrupted cfg hov ob call s hi
+    · simpa [dispatch] using process21_uninterrupted cfg hov ob call s hi
+    · simp [dispatch, applyEffs_nil]
+  · cases hk : cfg.kind <;> simp [dispatch, applyEffs_nil]
+
+/-- The status table spelled out for the branches that do not run the pipeline. -/
+theorem status_table (cfg : Cfg) (ob : Obj) (call : Call) (s : Disk) :
+    (apFileExists ob s = false → statusObj cfg ob call s = .ret 0) ∧
+    (ob.onShank = true → statusObj cfg ob call s = .ret 0) ∧
+    (apFileExists ob s = true → ob.onShank = false → cfg.kind = .np1 → statusObj cfg ob call s = .ret (-1)) ∧
+    (apFileExists ob s = true → ob.onShank = false → cfg.kind = .np24 → alreadyExists24 cfg.n call.overwrite s = true →
+      statusObj cfg ob call s = .ret 0) ∧
+    (apFileExists ob s = true → ob.onShank = false → cfg.kind = .np21 → alreadyExists21 call.overwrite s = true →
+      statusObj cfg ob call s = .ret 0) ∧
+    (apFileExists ob s = true → ob.onShank = false → cfg.kind = .np24 → alreadyExists24 cfg.n call.overwrite s = false →
+      (ob.opts.postCheck = true → splitDiffers cfg call = false) → statusObj cfg ob call s = .ret 1) ∧
+    (apFileExists ob s = true → ob.onShank = false → cfg.kind = .np24 → alreadyExists24 cfg.n call.overwrite s = false →
+      ob.opts.postCheck = true → splitDiffers cfg call = true → statusObj cfg ob call s = .raised .assertion) := by
+  refine ⟨?_, ?_, ?_, ?_, ?_, ?_, ?_⟩
+  · intro h; simp [statusObj, dispatch, h]
+  · intro h; unfold statusObj; cases dispatch (apFileExists ob s) cfg.kind <;> simp [h]
+  · intro h1 h2 h3; simp [statusObj, dispatch, h1, h2, h3]
+  · intro h1 h2 h3 h4
+    simp only [statusObj, dispatch, h1, h2, h3, Bool.not_true, Bool.false_eq_true, if_false]
+    rw [effects24_eq]; simp [h4, finish, Eff.stops]
+  · intro h1 h2 h3 h4
+    simp only [statusObj, dispatch, h1, h2, h3, Bool.not_true, Bool.false_eq_true, if_false]
+    rw [effects21_eq]; simp [h4, finish, Eff.stops]
+  · intro h1 h2 h3 h4 h5
+    simp only [statusObj, dispatch, h1, h2, h3, Bool.not_true, Bool.false_eq_true, if_false, h4]
+    exact finish_effects24_ok cfg ob call s h4 h5
+  · intro h1 h2 h3 h4 h5 h6
+    simp only [statusObj, dispatch, h1, h2, h3, Bool.not_true, Bool.false_eq_true, if_false, h4]
+    rw [effects24_eq]
+    simp only [h4, Bool.false_eq_true, if_false, verify24, h5, h6, if_true]
+    rw [show Eff.prepare :: (List.map Eff.split (List.range (2 * nproc cfg)) ++ (List.map Eff.md (List.range (2 * cfg.n)) ++
+        (List.map Eff.read (List.range (verifyReads cfg call)) ++ [Eff.assertFail]))) =
+        (Eff.prepare :: (List.map Eff.split (List.range (2 * nproc cfg)) ++ (List.map Eff.md (List.range (2 * cfg.n)) ++
+        List.map Eff.read (List.range (verifyReads cfg call))))) ++ [Eff.assertFail] from by simp]
+    rw [finish_stop _ _ _ rfl]; rfl
+
+/-- **Every named interruption point is a prefix.**  Whatever interruption the history model injects into a call (the
+`j`-th `_split2shanks` / `write_meta_data` / `Reader.read` of the verification / `compress_file` call, `delete_NP24`) and
+however the call ends, the state it leaves is the state after some prefix of the run's effect list: the theorems below,
+stated for ALL prefixes, contain every theorem about interrupted runs above as a special case.  (`htr`: mtscomp refuses an
+NP2.1 original with a trailing partial frame before the `.cbin_tmp` that the point `compress 0` presupposes exists.) -/
+theorem interrupted_run_is_prefix (cfg : Cfg) (hov : cfg.ov < cfg.w) (htr : cfg.kind = .np21 → cfg.trailing = false)
+    (ob : Obj) (call : Call) (s : Disk) :
+    ∃ pre, pre <+: effectsObj cfg ob call s ∧
+      applyEffs cfg call pre (s, ob) = ((processObj cfg ob call s).1, (processObj cfg ob call s).2.1) := by
+  unfold effectsObj processObj
+  cases he : apFileExists ob s
+  · exact ⟨[], by simp [dispatch], by simp [applyEffs_nil]⟩
+  cases ho : ob.onShank
+  · cases hk : cfg.kind
+    · simpa [dispatch, Reach] using process24_reach cfg hov ob call s
+    · simpa [dispatch, Reach] using process21_reach cfg hov (htr hk) ob call s
+    · exact ⟨[], by simp [dispatch], by simp [applyEffs_nil]⟩
+  · exact ⟨[], by cases cfg.kind <;> simp [dispatch], by simp [applyEffs_nil]⟩
+
+/-- **Safety for an interruption between ANY two effects.**  After every prefix of the effects of `process` -- not only at
+the named interruption points: also between the unlink of a stale `.cbin` and `compress_file`, between the publication of a
+`.cbin` and the unlink of its `.bin`, between the end of the verification and the first compression … -- the original samples
+are recoverable byte for byte (from the original's data file, or from the verified shank files once the guarded delete, the
+LAST effect of a run, has removed it). -/
+theorem prefix_recoverable (cfg : Cfg) (hn : 0 < cfg.n) (hov : cfg.ov < cfg.w) (ob : Obj) (call : Call) (s : Disk)
+    (hok : ObjOk s ob) (h0 : Recoverable cfg s) (pre : List Eff) (hpre : pre <+: effectsObj cfg ob call s) :
+    Recoverable cfg (applyEffs cfg call pre (s, ob)).1 := by
+  unfold effectsObj at hpre
+  have hnil : pre <+: [] → Recoverable cfg (applyEffs cfg call pre (s, ob)).1 := by
+    intro h; rw [List.prefix_nil.mp h]; exact h0
+  cases hd : dispatch (apFileExists ob s) cfg.kind <;> simp only [hd] at hpre
+  · exact hnil hpre
+  · -- NP2.4
+    cases ho : ob.onShank
+    case true => simp only [ho, if_true] at hpre; exact hnil hpre
+    simp only [ho, Bool.false_eq_true, if_false] at hpre
+    obtain ⟨he, hk⟩ := dispatch_np24 hd
+    have hoh : OrigHolds s := (hok.2.1 ho ((apFileExists_iff _ ob hok ho).mp he)).2
+    obtain ⟨A, hA, hE | ⟨hE, _⟩⟩ := effects24_split cfg ob call s
+    · rw [hE] at hpre
+      obtain ⟨t, rfl⟩ := hpre
+      exact Or.inl (applyEffs_keeps_origHolds cfg call pre (fun e h => hA e (List.mem_append_left _ h)) _ hoh)
+    · rw [hE] at hpre
+      rcases List.prefix_concat_iff.mp hpre with hw | hp
+      · -- the whole list: the uninterrupted run
+        have hu := (process24_uninterrupted cfg hov ob { call with interrupt := none } s rfl).1
+        rw [effects24_interrupt, applyEffs_interrupt, hE, ← hw] at hu
+        rw [hu]
+        rcases process24_orig cfg ob { call with interrupt := none } s hok.1 with ⟨a, b⟩ | ⟨_, _, hsd, _, _, e⟩
+        · exact Or.inl (origHolds_of_eq hoh a b)
+        · right
+          refine ⟨hk, ((splitDiffers_false_iff cfg _).mp hsd).1, hn, fun i hi => ?_⟩
+          obtain ⟨sh, a, b, _⟩ := e i hi
+          exact ⟨sh, a, b.holds.1, b.holds.2⟩
+      · obtain ⟨t, rfl⟩ := hp
+        exact Or.inl (applyEffs_keeps_origHolds cfg call pre (fun e h => hA e (List.mem_append_left _ h)) _ hoh)
+  · -- NP2.1
+    cases ho : ob.onShank
+    case true => simp only [ho, if_true] at hpre; exact hnil hpre
+    simp only [ho, Bool.false_eq_true, if_false] at hpre
+    obtain ⟨he, hk⟩ := dispatch_np21 hd
+    have hoh : OrigHolds s := (hok.2.1 ho ((apFileExists_iff _ ob hok ho).mp he)).2
+    obtain ⟨t, ht⟩ := hpre
+    exact Or.inl (applyEffs_keeps_origHolds cfg call pre
+      (fun e h => noDelete_effects21 cfg ob call s e (ht ▸ List.mem_append_left _ h)) _ hoh)
+  · exact hnil hpre
+
+/-- … over histories: after any sequence of calls (each completed or interrupted at a named point, on new objects or on the
+same one) followed by a call interrupted between any two of its effects, the original is recoverable. -/
+theorem original_recoverable_any_prefix (cfg : Cfg) (hn : 0 < cfg.n) (hov : cfg.ov < cfg.w) (st0 : St) (hs : StOk st0)
+    (h0 : Recoverable cfg st0.disk) (calls : List Call) (last : Call) (ob : Obj)
+    (ha : actingObj cfg last (runs cfg st0 calls) = some ob) (pre : List Eff)
+    (hpre : pre <+: effectsObj cfg ob last (runs cfg st0 calls).disk) :
+    Recoverable cfg (applyEffs cfg last pre ((runs cfg st0 calls).disk, ob)).1 :=
+  prefix_recoverable cfg hn hov ob last _ (acting_objOk cfg last _ ob (runs_stOk cfg calls st0 hs) ha)
+    (runs_recoverable cfg hn calls st0 hs h0) pre hpre
+
+/-- **`delete_original` is only reachable after `check_completed`.**  If the original is readable before a run and is not
+after some prefix of its effects, then that prefix is the WHOLE effect list of an NP2.4 run (the delete is its last effect),
+the list contains this run's own `check_completed = True` before the delete, `post_check` and `delete_original` are set, every
+shank of the probe was converted (no partial `nshank` selection), the split of this run is faithful for every shank, and every
+shank folder holds a complete ap and lf stream with metadata. -/
+theorem original_removed_only_after_check (cfg : Cfg) (hov : cfg.ov < cfg.w) (ob : Obj) (call : Call) (s : Disk)
+    (hok : ObjOk s ob) (h0 : OrigHolds s) (pre : List Eff) (hpre : pre <+: effectsObj cfg ob call s)
+    (h1 : ¬ OrigHolds (applyEffs cfg call pre (s, ob)).1) :
+    pre = effectsObj cfg ob call s ∧ cfg.kind = .np24 ∧ ob.onShank = false ∧
+    (∃ A, pre = A ++ [.delete] ∧ Eff.checked ∈ A ∧ ∀ e ∈ A, e ≠ .delete) ∧
+    ob.opts.postCheck = true ∧ ob.opts.deleteOriginal = true ∧
+    (cfg.partialSel = false ∧ ∀ i, i < cfg.n → altered cfg call i = false) ∧
+    Complete cfg ob.opts.compress (applyEffs cfg call pre (s, ob)).1 := by
+  have hnil : pre <+: [] → False := by
+    intro h; rw [List.prefix_nil.mp h] at h1; exact h1 h0
+  unfold effectsObj at hpre
+  cases hd : dispatch (apFileExists ob s) cfg.kind <;> simp only [hd] at hpre
+  · exact absurd hpre hnil
+  · cases ho : ob.onShank
+    case true => simp only [ho, if_true] at hpre; exact absurd hpre hnil
+    simp only [ho, Bool.false_eq_true, if_false] at hpre
+    obtain ⟨he, hk⟩ := dispatch_np24 hd
+    have hEO : effectsObj cfg ob call s = effects24 cfg ob call s := by simp [effectsObj, hd, ho]
+    obtain ⟨A, hA, hE | ⟨hE, hae, hdl, hchk⟩⟩ := effects24_split cfg ob call s
+    · rw [hE] at hpre
+      obtain ⟨t, rfl⟩ := hpre
+      exact absurd (applyEffs_keeps_origHolds cfg call pre (fun e h => hA e (List.mem_append_left _ h)) _ h0) h1
+    · rw [hE] at hpre
+      rcases List.prefix_concat_iff.mp hpre with hw | hp
+      · have hu := (process24_uninterrupted cfg hov ob { call with interrupt := none } s rfl).1
+        rw [effects24_interrupt, applyEffs_interrupt, hE, ← hw] at hu
+        rw [hu] at h1 ⊢
+        rcases process24_orig cfg ob { call with interrupt := none } s hok.1 with ⟨a, b⟩ | ⟨hpc, _, hsd, _, _, e⟩
+        · exact absurd (origHolds_of_eq h0 a b) h1
+        · refine ⟨by rw [hEO, hE, hw], hk, rfl, ⟨A, hw, (hchk hpc).2, hA⟩, hpc, hdl,
+            (splitDiffers_false_iff cfg _).mp hsd, ?_⟩
+          simp only [Complete, hk]; exact e
+      · obtain ⟨t, rfl⟩ := hp
+        exact absurd (applyEffs_keeps_origHolds cfg call pre (fun e h => hA e (List.mem_append_left _ h)) _ h0) h1
+  · cases ho : ob.onShank
+    case true => simp only [ho, if_true] at hpre; exact absurd hpre hnil
+    simp only [ho, Bool.false_eq_true, if_false] at hpre
+    obtain ⟨t, ht⟩ := hpre
+    exact absurd (applyEffs_keeps_origHolds cfg call pre
+      (fun e h => noDelete_effects21 cfg ob call s e (ht ▸ List.mem_append_left _ h)) _ h0) h1
+  · exact absurd hpre hnil
+
+/-- **A run interrupted between ANY two effects, then retried with `overwrite=True`, ends in the complete state.**  From the
+disk a genuinely interrupted run leaves (any strict prefix of its effects: partial files, half-compressed streams, stale
+`.cbin` / `.cbin_tmp`, metadata of some shanks only …), `process(overwrite=True)` of a NEW converter object left alone by the
+environment returns 1 and every stream of every shank is complete (compressed or not, as requested). -/
+theorem rerun_after_any_prefix_completes (cfg : Cfg) (hov : cfg.ov < cfg.w) (hnp : cfg.kind = .np24 ∨ cfg.kind = .np21)
+    (htr : cfg.kind = .np21 → cfg.trailing = false) (ob : Obj) (call : Call) (s : Disk) (hok : ObjOk s ob) (h0 : OrigHolds s)
+    (pre : List Eff) (hpre : pre <+: effectsObj cfg ob call s) (hstrict : pre ≠ effectsObj cfg ob call s)
+    (retry : Call) (hr : retry.reuse = false) (hsh : retry.onShank = false) (hw : retry.overwrite = true)
+    (hf : NoFault cfg retry) :
+    (run cfg retry ⟨(applyEffs cfg call pre (s, ob)).1, none⟩).2 = .ret 1 ∧
+    Complete cfg retry.opts.compress (run cfg retry ⟨(applyEffs cfg call pre (s, ob)).1, none⟩).1.disk := by
+  have hkeep : OrigHolds (applyEffs cfg call pre (s, ob)).1 := by
+    by_cases hc : OrigHolds (applyEffs cfg call pre (s, ob)).1
+    · exact hc
+    · exact absurd (original_removed_only_after_check cfg hov ob call s hok h0 pre hpre hc).1 hstrict
+  have ha : actingObj cfg retry ⟨(applyEffs cfg call pre (s, ob)).1, none⟩ =
+      some { opts := retry.opts, onShank := false, srForm := (applyEffs cfg call pre (s, ob)).1.orig,
+             checkCompleted := false, alreadyExists := false } := by
+    have : origReadable (applyEffs cfg call pre (s, ob)).1 = true := hkeep
+    simp [actingObj, hr, construct, hsh, this, Except.toOption]
+  have r := forced_rerun_completes cfg retry ⟨(applyEffs cfg call pre (s, ob)).1, none⟩ _ (by intro ob' h; cases h) hkeep ha
+    ⟨rfl, hnp⟩ htr hw hf
+  exact ⟨r.1, r.2.1⟩
+
+/-- **A partial shank selection never costs the original.**  With `init_params(nshank=[…])` naming a proper subset of the
+probe's shanks, whatever the options, `overwrite`, interruption or alteration, on a new object or on the same one, over any
+history: every call leaves the original's data file readable -- `check_NP24` cannot pass on a buffer that lacks the other
+shanks' channels, so `check_completed` is never set and the guard of `delete_NP24` never opens. -/
+theorem partial_selection_keeps_original (cfg : Cfg) (hp : cfg.partialSel = true) (st0 : St) (hs : StOk st0)
+    (h0 : OrigHolds st0.disk) (calls : List Call) : OrigHolds (runs cfg st0 calls).disk := by
+  induction calls generalizing st0 with
+  | nil => exact h0
+  | cons c cs ih =>
+    refine ih _ (run_stOk cfg c st0 hs) ?_
+    by_cases h1 : OrigHolds (run cfg c st0).1.disk
+    · exact h1
+    · obtain ⟨_, _, _, _, _, _, ⟨hps, _⟩, _⟩ := delete_requires_check cfg c st0 hs h0 h1
+      rw [hp] at hps; cases hps
+
 /-! ### Non-vacuity, and the counterexample of the known finding -/
 
 /-- a two-shank NP2.4 recording of 2000 samples, windows of 1200 with overlap 576: 3 processing windows -/
@@ -266,7 +502,7 @@ example : nproc cfg24 = 3 ∧ nverif cfg24 = 2 := by
 
 example : StOk start24 ∧ OrigHolds start24.disk ∧ Recoverable cfg24 start24.disk ∧ NoOutput cfg24 start24.disk ∧
     NoFault cfg24 (dflt false) := by
-  refine ⟨by simp [StOk, start24, St.start], rfl, Or.inl rfl, ?_, ⟨rfl, ?_⟩⟩
+  refine ⟨by simp [StOk, start24, St.start], rfl, Or.inl rfl, ?_, ⟨rfl, rfl, ?_⟩⟩
   · intro i _; rfl
   · intro i _; simp [dflt, altered]
 
@@ -325,5 +561,58 @@ example : (run cfg24 (dflt false) start24).2 = .ret 1 ∧
   simp [run, construct, processObj, start24, St.start, cfg24, dflt, process24, fresh, origReadable, apFileExists, alreadyExists24,
     stopAt, splitDiffers, altered, verifyReads, List.range, List.range.loop, prepare24, onShanks, prepShank,
     windows24, metas24, compress24]
+
+/-! ### non-vacuity of the effect-sequence theorems -/
+
+/-- the object `NP2Converter(ap_file, post_check=True, compress=True, delete_original=False)` builds on the fresh disk -/
+def ob0 : Obj := { opts := ⟨true, true, false⟩, onShank := false, srForm := .bin, checkCompleted := false, alreadyExists := false }
+/-- … with `post_check=True, compress=False, delete_original=True` -/
+def obD : Obj := { ob0 with opts := ⟨true, false, true⟩ }
+
+example : cfg24.ov < cfg24.w ∧ 0 < cfg24.n ∧ ObjOk (fresh .bin) ob0 ∧ ObjOk (fresh .bin) obD ∧ OrigHolds (fresh .bin) ∧
+    NoFault cfg24 (dflt true) := by
+  refine ⟨by decide, by decide, ?_, ?_, rfl, rfl, rfl, ?_⟩
+  · simp [ObjOk, ob0, fresh, origReadable]
+  · simp [ObjOk, obD, ob0, fresh, origReadable]
+  · intro i _; simp [dflt, altered]
+
+/-- the run of the default object on the fresh two-shank recording: 1 + 6 + 4 + (6 + 1) + 16 = 34 effects; `[prepare]` and
+"everything up to the publication of the first `.cbin`" are strict prefixes (the second one is not a named interruption point) -/
+example : (effectsObj cfg24 ob0 (dflt false) (fresh .bin)).length = 34 ∧
+    [Eff.prepare] <+: effectsObj cfg24 ob0 (dflt false) (fresh .bin) ∧
+    (effectsObj cfg24 ob0 (dflt false) (fresh .bin)).take 21 <+: effectsObj cfg24 ob0 (dflt false) (fresh .bin) ∧
+    ((effectsObj cfg24 ob0 (dflt false) (fresh .bin)).take 21).getLast? = some (Eff.publish (.shankAp 0)) := by
+  have h : effectsObj cfg24 ob0 (dflt false) (fresh .bin) = effects24 cfg24 ob0 (dflt false) (fresh .bin) := by
+    simp [effectsObj, dispatch, apFileExists, fresh, cfg24, ob0]
+  have hn : nproc cfg24 = 3 := by simp [nproc, cfg24, Window.firstlast, Window.firstlastAux]
+  have hv : verifyReads cfg24 (dflt false) = 6 := by
+    simp [verifyReads, dflt, nverif, cfg24, Window.firstlast, Window.firstlastAux]
+  have hae : alreadyExists24 2 (dflt false).overwrite (fresh .bin) = false := by
+    simp [alreadyExists24, fresh, dflt]
+  have hsd : splitDiffers cfg24 (dflt false) = false := by simp [splitDiffers, altered, dflt, cfg24]
+  have hn2 : cfg24.n = 2 := rfl
+  have hl : effects24 cfg24 ob0 (dflt false) (fresh .bin) =
+      Eff.prepare :: ((List.range 6).map Eff.split ++ ((List.range 4).map Eff.md ++ ((List.range 6).map Eff.read ++
+        (Eff.checked :: (List.range 2).flatMap compShank)))) := by
+    rw [effects24_eq]
+    simp only [hae, hn, hv, hsd, hn2, verify24, tail24, ob0, Bool.false_eq_true, if_false, if_true, List.append_nil]
+  rw [h, hl]
+  decide
+
+/-- the verified deleting run: its whole effect list removes the original (and only the whole list does) -/
+example : ¬ OrigHolds (applyEffs cfg24 deleting (effectsObj cfg24 obD deleting (fresh .bin)) (fresh .bin, obD)).1 := by
+  rw [(uninterrupted_run_is_effect_list cfg24 (by decide) obD deleting (fresh .bin) rfl).1]
+  simp [processObj, obD, ob0, cfg24, deleting, dflt, process24, fresh, origReadable, OrigHolds,
+    apFileExists, alreadyExists24, stopAt, splitDiffers, altered, verifyReads, List.range, List.range.loop]
+
+/-- with post_check the verification of a partial selection fails (status: the AssertionError of `check_NP24`), in the first
+verification window, after one read of the original and one per selected shank -/
+def cfgP : Cfg := { cfg24 with n := 1, partialSel := true }
+example : (run cfgP deleting start24).2 = .raised .assertion ∧ verifyReads cfgP deleting = 2 ∧
+    (run cfgP deleting start24).1.disk.orig = .bin := by
+  simp [cfgP, run, construct, processObj, St.start, start24, cfg24, deleting, dflt, process24, fresh, origReadable,
+    apFileExists, alreadyExists24, stopAt, splitDiffers, altered, verifyReads, nverif, Window.firstlast,
+    Window.firstlastAux, List.range, List.range.loop]
+  rfl
 
 end IblVerif.C04
